@@ -67,7 +67,15 @@ def check_segments(n, changes):
                 want = [[seg_of[j] == seg_of[i] for j in range(n)] for i in indices.tolist()]
                 if masks.tolist() != want:
                     return f"{kind} masks"
-            # apply: scalar result, array result, float result of integer data (dtype must follow the function's result)
+            # indices outside the array are refused, never answered with some segment (n is the confusable one: it is
+            # the exclusive stop of the last segment)
+            for bad in (n, n + 1, -1):
+                for fn in ("get_KIND_positions", "get_KIND_starts_for", "get_KIND_masks"):
+                    try:
+                        r = f[fn](arr, np.array([0, bad]))
+                    except (ValueError, IndexError):
+                        continue
+                    return f"{fn.replace('KIND', kind)}(array of {n} atoms, [0, {bad}]) answered {r.tolist()} instead of refusing the index"
             data = np.arange(n) * 2 + 1
             got = f["apply_KIND_wise"](arr, data, np.sum)
             if got.tolist() != [sum(int(data[i]) for i in s) for s in segs]:
@@ -237,6 +245,41 @@ def check_long_chain(length):
         if l.startswith("RES"):
             return None if l.split()[1:] == ["1", str(length)] else f"chain of {length}: {l}"
     return f"chain of {length} atoms: interpreter terminated (rc={p.returncode}) in get_molecule_indices"
+
+
+def check_large(n, k, stride):
+    """a structure of n atoms (beyond any size threshold) made of bonded runs of k atoms separated by unbonded atoms,
+    plus one long-range bond per `stride` runs: components by union-find (in process: runs are short)"""
+    import biotite.structure as struc
+    edges = [(i, i + 1) for i in range(n - 1) if i % (k + 1) < k - 1]
+    runs = [i for i in range(0, n - k, k + 1)]
+    edges += [(runs[j], runs[j + 1] + k - 1) for j in range(0, len(runs) - 1, stride)]
+    bl = struc.BondList(n, np.array([[a, b, 1] for a, b in edges], dtype=np.int64).reshape(-1, 3))
+    want = components(n, edges)
+    got = struc.get_molecule_indices(bl)
+    if sorted(sorted(int(x) for x in m) for m in got) != want:
+        return f"n={n} k={k} stride={stride}: {len(got)} molecules with {sum(len(m) for m in got)} atoms, components: {len(want)} with {n} atoms"
+    arr = struc.AtomArray(n)
+    arr.coord = np.zeros((n, 3), dtype=np.float32)
+    arr.bonds = bl
+    arr.set_annotation("tag", np.arange(n))
+    masks = struc.get_molecule_masks(arr)
+    if masks.shape != (len(want), n) or not (masks.sum(axis=0) == 1).all():
+        return f"n={n} k={k}: molecule masks do not partition the atoms"
+    parts = [p.tag.tolist() for p in struc.molecule_iter(arr)]
+    if sorted(sorted(p) for p in parts) != want:
+        return f"n={n} k={k}: molecule_iter yields {len(parts)} molecules with {sum(len(p) for p in parts)} atoms"
+    return None
+
+
+def ob_large(tier):
+    N, K, S = z3.Ints("N K S")
+    sizes = [9000, 10001, 12000] if tier == "quick" else [9000, 10001, 12000, 70000]
+    ks, strides = [1, 2, 5], [1, 3, 10 ** 9]
+    return [Case("large structures with isolated atoms", [N >= 0, N < len(sizes), K >= 0, K < len(ks), S >= 0, S < len(strides)],
+                 lambda: check_large(sizes[cur().choose(N, range(len(sizes)))], ks[cur().choose(K, range(len(ks)))],
+                                     strides[cur().choose(S, range(len(strides)))]) is None,
+                 dict(N=N, K=K, S=S), lambda w: _rep(lambda N, K, S: check_large(sizes[N], ks[K], strides[S]), "N", "K", "S")(w))]
 
 
 def ob_long_chain(tier):
